@@ -221,15 +221,19 @@ struct GenOpts {
     bool inexact = false;
     bool compose = true;
     int64_t max_weight = 1 << 20;
+    int big_core_pm = 0;           // per-mille: core of 9..12 vertices (support vectors reach |V| entries: all-vertices strategy)
+    int core_sat_pm = 0;           // per-mille: force the dense-core-plus-satellites family
     int hubs_pm = 0;               // per-mille: the 'hubs' family with its own structural weights
     int heavy_tail_pm = 0;         // per-mille: bimodal weights (few very heavy edges) replace the all-unit scheme
     int boundary_pm = 0;           // per-mille: a sparse graph whose size sits on a power-of-two boundary
     int boundary_max_n = 257;
 };
 
-inline int gen_structure(Rng &r, int max_n, EL &el, std::string &family) {
+inline int gen_structure(Rng &r, int max_n, EL &el, std::string &family, bool force_core = false, bool big_core = false) {
     int n = 0;
     int pick = (int) r.below(100);
+    if (big_core) force_core = true;
+    if (force_core && (max_n >= 7 || big_core)) pick = 96;
     int nn = (int) r.range(std::min(3, max_n), max_n);
     if (pick < 30) {
         double p = r.chance(300) ? r.unit() : (r.chance(500) ? 0.25 + 0.5 * r.unit() : 0.7 + 0.3 * r.unit());
@@ -254,6 +258,19 @@ inline int gen_structure(Rng &r, int max_n, EL &el, std::string &family) {
     } else if (pick < 88) { n = fam_cycle_chords(r, std::max(3, nn), (int) r.range(0, std::max(1, nn / 2)), el); family = "cycle_chords";
     } else if (pick < 92) { n = fam_cactus(r, (int) r.range(1, std::max(1, max_n / 3)), el); family = "cactus";
     } else if (pick < 96) { n = fam_theta(r, (int) r.range(2, 4), std::max(2, max_n / 3), el); family = "theta";
+    } else if (pick < 97 && (max_n >= 7 || big_core)) {
+        // dense core (complete or nearly complete: the signed algorithms switch to the all-vertices strategy
+        // once a support vector has >= |V| entries) plus satellites that lie on no cycle and get ADJACENT
+        // indices: runs of searches that find nothing, next to each other
+        int sat = (int) r.range(2, 4), core = std::max(4, std::min(max_n - sat, (int) r.range(5, 8)));
+        if (big_core) core = (int) r.range(7, 12);
+        int at = r.chance(500) ? 0 : (int) r.range(1, 2);                  // satellites first / in the middle / last
+        std::vector<int> id;                        // id[k] = index of core vertex k
+        int first_sat = at == 0 ? 0 : at == 1 ? core / 2 : core;
+        for (int k = 0; k < core; k++) id.push_back(k < first_sat ? k : k + sat);
+        for (int a = 0; a < core; a++) for (int b = a + 1; b < core; b++) if (!r.chance(80)) add_e(el, id[a], id[b]);
+        for (int q = 0; q < sat; q++) if (r.chance(400)) add_e(el, first_sat + q, id[r.below(core)]);    // pendant, else isolated
+        n = core + sat; family = "core_satellites";
     } else if (pick < 98) { n = fam_tree(r, nn, el); family = "tree";
     } else {
         int k = (int) r.below(3);
@@ -368,6 +385,7 @@ inline GGraph gen_graph(Rng &r, const GenOpts &o) {
         return g;
     }
     EL el; std::string fam;
+    bool big_used = false;
     int budget_n = o.max_n;
     int parts = (o.compose && r.chance(250)) ? 2 : 1;
     int n = 0;
@@ -375,7 +393,9 @@ inline GGraph gen_graph(Rng &r, const GenOpts &o) {
         EL sub; std::string f;
         int room = std::max(0, (budget_n - n) / (parts - p));
         if (room < 1 && p > 0) break;
-        int sn = gen_structure(r, std::max(1, room), sub, f);
+        bool bigc = parts == 1 && o.big_core_pm > 0 && r.chance((unsigned) o.big_core_pm);
+        int sn = gen_structure(r, std::max(1, room), sub, f, parts == 1 && o.core_sat_pm > 0 && r.chance((unsigned) o.core_sat_pm), bigc);
+        if (bigc) big_used = true;
         for (auto &q : sub) el.emplace_back(q.first + n, q.second + n);
         n += sn;
         fam += (p ? "+" : "") + f;
@@ -392,12 +412,13 @@ inline GGraph gen_graph(Rng &r, const GenOpts &o) {
         }
     }
     dedup(el);
-    while ((int) el.size() > o.max_m) el.erase(el.begin() + (long) r.below(el.size()));
+    while (!big_used && (int) el.size() > o.max_m) el.erase(el.begin() + (long) r.below(el.size()));
     GGraph g = from_el(n, el);
     g.family = fam;
     g.heavy_tail = o.heavy_tail_pm > 0 && r.chance((unsigned) o.heavy_tail_pm);
     assign_weights(r, g, o);
-    relabel_and_shuffle(r, g);
+    if (fam == "core_satellites" && r.chance(700)) { r.shuffle(g.e); for (auto &e : g.e) if (r.chance(500)) std::swap(e.u, e.v); }   // keep the index layout
+    else relabel_and_shuffle(r, g);
     return g;
 }
 
